@@ -23,7 +23,7 @@ TRUSTED = [
 ASSUMPTIONS = [
     "the registry sweep (all types x histories x routes) is decided on the implementation by the round-trip oracle; only the "
     "view re-basing and the map records carry theorems",
-    "Table column format templates, repr policies and object identity (is) are not part of the observation",
+    "repr policies, object identity (is) and the 'loaded' flag of auto-generated internal node names are not part of the observation",
     "old SeqView.to_rich_dict by itself does not export the offset (the enclosing Sequence does): for a bare SeqView only "
     "value / length / strand are observed",
 ]
@@ -143,7 +143,9 @@ def spec_check(ctx, budget):
 
     out = new_outcome(
         "round-trip oracle: for every family of registered serialisable types, seeded recipes (object + history: slices, rc, "
-        "strides, offsets, features, take/rename/degap, tree edits, table ops, re-scoped/optimised lf ...) are replayed on the real "
+        "strides, offsets, features, rename/deepcopy/to_moltype/take_seqs/take_positions/degap, tree edits incl. root and internal "
+        "lengths/params, table ops incl. formats, re-scoped/bounded/constant/time-het/bins/loci lf after optimise(5), results holding "
+        "them, NotCompleted with nested origin/source ...) plus a regression corpus are replayed on the real "
         "classes and x is compared with deserialise_object(json.loads(x.to_json())), deserialise_object(x.to_rich_dict()), "
         "pickle.loads(pickle.dumps(x)) and x.copy(sliced=True) through the fixed observation function; "
         "non-trivial = distinct (recipe, route) whose history is non-empty and whose round trip was compared"
